@@ -257,6 +257,31 @@ PROPS = {
                        "normalize_total, split_aligned, parts_total, encoder_never_panics, process_never_panics; decode_never_panics for any ids "
                        "on any tokenizer. Tied to the code by differential runs of the whole pipeline with overflow checks on.",
     },
+    "C15": {
+        "level": "proof",
+        "rule": "Every source = the 22 convertible shipped foreign-format files plus 400 (quick) / 4000 (thorough) generated sources of the four "
+                "formats (mostly valid, with boundary values; rejected ones are counted). Each is converted by its explicit converter (DEF "
+                "lines) and parsed independently in the harness (base64 / serde_json::Value / prost; own GPT-2 byte table and <0xNN> parser): "
+                "one SRCT line per source token (id, true bytes, unused, score bits, merge priority, special kind). KEEPS = the Lean verdict "
+                "keepsCheck (every ordinary token kept under its id with its bytes unless unused or a duplicate; specials kept with id and "
+                "kind or renumbered only on a collision; nothing invented; byte-pair order by merge priority; unigram scores bit-exact; the "
+                "definition initializes when the source is well-formed). CONVTT / CONVTK: the Lean models of the Tiktoken and Tekken "
+                "converters against the implementation's result. BYTETAB: the 256 placeholder characters observed through a ByteLevel source. "
+                "BYTEPIECE: all 256 <0xNN> pieces (upper and lower case) and malformed ones through a SentencePiece source. IMPLEQ detect: "
+                "auto-detection = explicit converter, with the earlier loaders of the chain that accept the data named; detect-native: a "
+                "native file of the result is read back as itself. Non-trivial: all.",
+        "trusted_base": CORE_TB + ["the independent parsers in harness/src/c15.rs (they share base64, serde_json and prost with the converters, none of the converters' types or logic)",
+                                   "keepsFast (hash-map evaluation of keepsCheck for 100k-entry vocabularies; cross-checked against the proved keepsCheck on every source with at most 2000 tokens)",
+                                   "NOT modelled: the SentencePiece and Tokenizers converters (normalizer / pre-tokenizer / decoder translation, merge reconstruction); their output is judged per source"],
+        "assumptions": ["Tekken tokens beyond default_vocab_size and SentencePiece BYTE pieces not of the exact form <0xNN> carry no claim (treated as unused)",
+                        "a second SentencePiece UNKNOWN piece, or one that the trainer spec does not name, carries no claim"],
+        "explanation": "Lean theorems: the byte-level placeholder table has 256 distinct entries and its inverse undoes it on every byte "
+                       "string; <0xNN> parsing is exact on all 256 pieces and rejects short ones; convertTiktoken keeps every line in order "
+                       "(tiktoken_keeps); convertTekken keeps every token inside the declared size under rank + specials, invents nothing, is "
+                       "sorted, and its special and vocabulary ids are disjoint; the detection chain returns the native result first and the "
+                       "explicit result exactly when earlier loaders reject; keepsCheck_sound (the decidable checker implies the property). "
+                       "The SentencePiece and Tokenizers converters are decided per source by keepsCheck on the implementation's output.",
+    },
     "C16": {
         "level": "other",
         "rule": "REC ops: each of the 22 convertible shipped reference models (6 SentencePiece, 3 Tiktoken, 13 Tokenizers; the emptied files "
